@@ -28,6 +28,44 @@ func checkC12(p *Prog, r *Report) {
 	outerKeyGuard(p, ls, r, "R1", tally, 1)
 	outerKeyGuard(p, ls, r, "R1", pend, 1)
 
+	r.Rule("R7", "bookkeeping of one write never touches another write of the same peer: a function that addresses the per-peer maps by message counter deletes only at the counter level; removing a peer's whole entry is left to functions that never address a single write (teardown)")
+	nDel := 0
+	for _, key := range []string{tally, pend} {
+		fname := key[strings.Index(key, ".")+1:]
+		for _, fn := range ls.fns {
+			if isWrapper(fn) {
+				continue
+			}
+			var outerDel []*ssa.Call
+			inner := 0
+			for _, a := range ls.accessesIn(key, fn) {
+				switch x := a.Ins.(type) {
+				case *ssa.Call:
+					if builtinName(&x.Call) == "delete" {
+						nDel++
+						pth := Path(x.Call.Args[0])
+						if strings.HasSuffix(pth, "."+fname) {
+							outerDel = append(outerDel, x)
+						} else if strings.Contains(pth, "."+fname+"[]") {
+							inner++
+						}
+					}
+				case *ssa.Lookup:
+					if strings.Contains(Path(x.X), "."+fname+"[]") {
+						inner++
+					}
+				case *ssa.MapUpdate:
+					if strings.Contains(Path(x.Map), "."+fname+"[]") {
+						inner++
+					}
+				}
+			}
+			for i, d := range outerDel {
+				r.Check("R7", fmt.Sprintf("field:%s|fn:%s|peer-delete#%d", key, FnName(originOf(fn)), i+1), inner == 0, p.InstrPos(d), fmt.Sprintf("the whole entry of the peer is deleted in a function that addresses single writes by counter %d times: the bookkeeping of the peer's other pending writes is wiped with it", inner))
+			}
+		}
+	}
+	r.Floor("R7", "deletions on the per-peer maps", nDel, 3)
 	r.Rule("R2", "whoever deletes a pending entry and then produces an outcome claims it: a comma-ok look-up of the entry and its deletion share one critical section, and every outcome effect is reached only if the look-up found the entry")
 	r.Rule("R3", "resolver paths: claimed ⇒ exactly one outcome (the write executor exactly once, or exactly one error result); not claimed or not yet unanimous ⇒ no outcome")
 	nResolvers := 0
